@@ -345,7 +345,9 @@ package meta
 //@   property C07
 //@   callee metabase.objectStatus
 //@   pureeffect
-//@   requires [status_for_the_current_epoch_and_the_target] a1 == target && a2 == currEpoch
+// (only the target is demanded: whether the target's tombstone is seen does not depend on the
+// epoch the status is asked for - the removal mark is looked up by itself, postcondition below)
+//@   requires [status_for_the_target] a1 == target
 //@   defines result == targetStatus()
 // The status of the target hides a tombstone behind an expiry (an expired object reports
 // "expired" whatever else is true of it), so the admission of a lock asks for the target's
